@@ -113,7 +113,16 @@ Definition state_trace (st : N) (s : ep) : list event :=
   if state s =? st then trace s else trace s ++ [ESig SigState [PStr st]].
 Definition close_io (s : ep) : bool := if closed s then io_set s else false.
 Definition close_nio (s : ep) : nat := if closed s then n_io s else if io_set s then pred (n_io s) else n_io s.
-Definition close_trace (s : ep) : list event := if closed s then trace s else trace s ++ [EClosed].
+Definition flush_map (its : list (N * bytes)) (m : list (N * N)) : list (N * N) :=
+  fold_left (fun m it => dict_del (fst it) m) its m.
+Definition flush_events (its : list (N * bytes)) : list event :=
+  map (fun it => ESig SigSendFinished [PStrNum (fst it); PInt 0; PStr RES_TERMINATING]) its.
+(** A close that takes effect first reports the transfers never started. *)
+Definition close_trace (s : ep) : list event :=
+  if closed s then trace s else trace s ++ flush_events (pend_start s) ++ [EClosed].
+Definition close_pend (s : ep) : list (N * bytes) := if closed s then pend_start s else [].
+Definition close_txmap (s : ep) : list (N * N) :=
+  if closed s then tx_map s else flush_map (pend_start s) (tx_map s).
 Definition sbd_pq (n : N) (s : ep) : bool := if n <? 5 * seg_size s then true else pq_set s.
 Definition sbd_npq (n : N) (s : ep) : nat := if n <? 5 * seg_size s then npq_trig s else n_pq s.
 
@@ -142,10 +151,33 @@ Proof.
   destruct s; reflexivity.
 Qed.
 
+Lemma flush_fold : forall its s,
+  fold_left (fun s it =>
+               emit (ESig SigSendFinished [PStrNum (fst it); PInt 0; PStr RES_TERMINATING])
+                    (s <| tx_map := dict_del (fst it) (tx_map s) |>)) its s
+  = s <| tx_map := flush_map its (tx_map s) |> <| trace := trace s ++ flush_events its |>.
+Proof.
+  induction its as [|it its IH]; intros s; cbn [fold_left flush_map flush_events map].
+  - rewrite app_nil_r. destruct s; reflexivity.
+  - rewrite IH. unfold emit. ep_cbn. rewrite <- app_assoc. reflexivity.
+Qed.
+
+Lemma flush_pend_start_eq s : flush_pend_start s =
+  s <| pend_start := [] |> <| tx_map := flush_map (pend_start s) (tx_map s) |>
+    <| trace := trace s ++ flush_events (pend_start s) |>.
+Proof. unfold flush_pend_start. rewrite flush_fold. reflexivity. Qed.
+
 Lemma do_close_eq s : do_close s =
   s <| ka_due := None |> <| idle_due := None |> <| closed := true |>
-    <| io_set := close_io s |> <| n_io := close_nio s |> <| trace := close_trace s |>.
-Proof. unfold do_close, emit, close_io, close_nio, close_trace. destruct s; cbn. destruct closed, io_set; reflexivity. Qed.
+    <| io_set := close_io s |> <| n_io := close_nio s |>
+    <| pend_start := close_pend s |> <| tx_map := close_txmap s |> <| trace := close_trace s |>.
+Proof.
+  unfold do_close, close_io, close_nio, close_trace, close_pend, close_txmap. ep_cbn.
+  destruct (closed s) eqn:Ec.
+  - destruct s; cbn in *; subst; reflexivity.
+  - rewrite flush_pend_start_eq. unfold emit. ep_cbn. destruct (io_set s) eqn:Ei; ep_cbn;
+      destruct s; cbn in *; subst; rewrite <- ?app_assoc; reflexivity.
+Qed.
 
 Lemma send_frame_eq f s : send_frame f s =
   s <| msg_tx := msg_tx s ++ encode_frame f |> <| sent := sent s ++ [f] |> <| t_send := now s |>
@@ -194,26 +226,6 @@ Lemma send_sess_init_eq s : send_sess_init s =
   (send_frame (FMsg (sess_init_msg (cf s))) s) <| sessinit_this := Some (my_sessinit s) |>.
 Proof. reflexivity. Qed.
 
-Definition flush_map (its : list (N * bytes)) (m : list (N * N)) : list (N * N) :=
-  fold_left (fun m it => dict_del (fst it) m) its m.
-Definition flush_events (its : list (N * bytes)) : list event :=
-  map (fun it => ESig SigSendFinished [PStrNum (fst it); PInt 0; PStr RES_TERMINATING]) its.
-
-Lemma flush_fold : forall its s,
-  fold_left (fun s it =>
-               emit (ESig SigSendFinished [PStrNum (fst it); PInt 0; PStr RES_TERMINATING])
-                    (s <| tx_map := dict_del (fst it) (tx_map s) |>)) its s
-  = s <| tx_map := flush_map its (tx_map s) |> <| trace := trace s ++ flush_events its |>.
-Proof.
-  induction its as [|it its IH]; intros s; cbn [fold_left flush_map flush_events map].
-  - rewrite app_nil_r. destruct s; reflexivity.
-  - rewrite IH. unfold emit. ep_cbn. rewrite <- app_assoc. reflexivity.
-Qed.
-
-Lemma flush_pend_start_eq s : flush_pend_start s =
-  s <| pend_start := [] |> <| tx_map := flush_map (pend_start s) (tx_map s) |>
-    <| trace := trace s ++ flush_events (pend_start s) |>.
-Proof. unfold flush_pend_start. rewrite flush_fold. reflexivity. Qed.
 
 Lemma emit_eq e s : emit e s = s <| trace := trace s ++ [e] |>.
 Proof. reflexivity. Qed.
